@@ -35,7 +35,7 @@ def run(c):
                 allowed = fl.get(f[-1], 0) > 16 and "beyond-16-flat"
             elif entry == "dealloc":
                 if f[2] == "direct":
-                    allowed = ("flist" in f[-1] and "declared-todo:flist-direct-dealloc") or (fl.get(f[-1], 0) > 16 and "beyond-16-flat")
+                    allowed = fl.get(f[-1], 0) > 16 and "beyond-16-flat"     # (fixed-length lists: repaired, see known_findings fixed:)
             elif entry == "postret":
                 allowed = (not needs.get(f[-1], "").startswith("postreturn=1")) and "post-return-not-requested"
             elif entry == "call":
